@@ -297,6 +297,60 @@ def f48(pairs):
     return dict(pairs)
 
 
+def cond_named_class(x, cls):
+    return not isinstance(x, cls)
+
+
+def cond_named_callbacks(x, fn, mod, bi, meth):
+    return fn(x) + mod.floor(x) + bi(x) + meth() < 0
+
+
+def cond_named_plain(a, b):
+    return a < b
+
+
+@icontract.require(cond_named_class)
+def f49(x, cls):
+    return x
+
+
+@icontract.require(cond_named_callbacks, a_repr=SMALL_REPR)
+def f50(x, fn, mod, bi, meth):
+    return x
+
+
+@icontract.require(cond_named_plain)
+def f51(a, b, c=3):
+    return a
+
+
+@icontract.invariant(lambda self: len(self.names) < 2, a_repr=SMALL_REPR)
+class K52:
+    def __init__(self, names):
+        self.names = names
+
+    def __repr__(self):
+        return "K52(names=%r)" % (self.names,)
+
+    def add(self, name):
+        self.names.append(name)
+
+
+@icontract.invariant(lambda self: self.total() < 10, a_repr=WIDE_REPR)
+class K53(icontract.DBC):
+    def __init__(self, parts):
+        self.parts = parts
+
+    def __repr__(self):
+        return "K53(%s)" % ("+".join(str(p) for p in self.parts) * 40)
+
+    def total(self):
+        return sum(self.parts)
+
+    def push(self, part):
+        self.parts.append(part)
+
+
 def _long_string():
     return "".join(chr(ord("a") + (i * 7) % 26) for i in range(300))
 
@@ -334,7 +388,7 @@ CASES = [
     {"id": "c26", "fn": "f26", "args": [], "kwargs": {"x": -7}},
     {"id": "c27", "fn": "f27", "args": [], "kwargs": {"lst": [1, 2], "v": 3}, "fresh": {"lst": [1, 2]}},
     {"id": "c28", "fn": "f28", "args": [], "kwargs": {"x": 1}},
-    {"id": "c29", "fn": "K29.dec", "args": [], "kwargs": {"by": 5}, "self": 3},
+    {"id": "c29", "fn": "K29.dec", "args": [], "kwargs": {"by": 5}, "self": ["K29", [3]]},
     {"id": "c30", "fn": "f30", "args": [], "kwargs": {"x": 7}},
     {"id": "c31", "fn": "f31", "args": [], "kwargs": {"data": {"k": ["v" * 40, "w" * 40], "j": [_long_string()]}}},
     {"id": "c32", "fn": "f32", "args": [], "kwargs": {"b": bytes(range(256)) * 3}},
@@ -353,5 +407,10 @@ CASES = [
     {"id": "c46", "fn": "f46", "args": [], "kwargs": {"xs": ["ab", _long_string(), "cd"]}, "a_repr": SMALL, "all_vars": {"x": _long_string()}},
     {"id": "c47", "fn": "f47", "args": [], "kwargs": {"xs": ["ab", _long_string() + _long_string()], "lim": 10}, "a_repr": WIDE, "all_vars": {"x": _long_string() + _long_string()}},
     {"id": "c48", "fn": "f48", "args": [], "kwargs": {"pairs": [("a", "b"), ("q" * 30, "q" * 30)]}, "a_repr": SMALL, "all_vars": {"k": "q" * 30, "v": "q" * 30}},
+    {"id": "c49", "fn": "f49", "args": [], "kwargs": {"x": 3, "cls": int}, "hidden": ["cls"]},
+    {"id": "c50", "fn": "f50", "args": [], "kwargs": {"x": 3, "fn": helper, "mod": math, "bi": abs, "meth": _P.val}, "a_repr": SMALL, "hidden": ["fn", "mod", "bi", "meth"]},
+    {"id": "c51", "fn": "f51", "args": [], "kwargs": {"a": 5, "b": 2}},
+    {"id": "c52", "fn": "K52.add", "args": [], "kwargs": {"name": "zzzzzzzzzzzzzzzzzzzzzzzzz"}, "self": ["K52", [["first-name-which-is-long"]]], "a_repr": SMALL},
+    {"id": "c53", "fn": "K53.push", "args": [], "kwargs": {"part": 9}, "self": ["K53", [[1, 2]]], "a_repr": WIDE},
     {"id": "c45", "fn": "f45", "args": [], "kwargs": {"x": 123456789012345678901234567890, "helper_fn": helper}, "a_repr": SMALL, "hidden": ["helper_fn"]},
 ]
